@@ -22,34 +22,43 @@ SCALAR = ('R', 'W', 'Q', 'F')
 def plan(tier):
     if tier == 'quick':
         return [
-            # 2 sessions, 1 row, programs <= 2 over {R, W, Q(requery), F(flush)}; attribute b ordinary, excluded
-            # from optimistic checks (optimistic=False / float) or volatile: graph replayed on threads
-            dict(name='c20-2s-1o-2ops-kinds', how='graph', limit=680,
-                 cfg=dict(NS=2, NO=1, MaxOps=2, KB=('opt', 'nonopt', 'volatile'), OpSet=SCALAR)),
-            # all programs of <= 3 reads/writes of 2 attributes, all interleavings: invariants only
-            dict(name='c20-2s-1o-3ops', how='check',
-                 cfg=dict(NS=2, NO=1, MaxOps=3, OpSet=('R', 'W'))),
-            # two rows, 3 operations, deletes, locked objects (exempt from the criteria): sampled behaviours
-            dict(name='c20-2s-2o-3ops-sim', how='simulate', num=260, depth=14,
-                 cfg=dict(NS=2, NO=2, MaxOps=3, KB=('opt', 'nonopt'), OpSet=SCALAR + ('D', 'GFU'))),
+            # 2 sessions, 1 row, programs <= 2 over {R, W, Q(requery), QR(query filtering on an attribute), F(flush)};
+            # attribute b ordinary, excluded from optimistic checks (optimistic=False / float) or volatile; every
+            # other replay declares b in a subclass and queries through the base entity
+            dict(name='c20-2s-1o-2ops-kinds', how='graph', limit=560,
+                 cfg=dict(NS=2, NO=1, MaxOps=2, KB=('opt', 'nonopt', 'volatile'), OpSet=SCALAR + ('QR',))),
+            # one db_session with two transactions: lock (by pk / by unique key), commit(), read, write, against a
+            # concurrent writer - all programs of <= 4 such operations
+            dict(name='c20-commit-in-the-middle', how='graph', limit=220,
+                 cfg=dict(NS=2, NO=1, MaxOps=4, MaxOpsN=1, OpSet1=('GFU', 'CM', 'R', 'W'), OpSet=('W',),
+                          LockModes=('wait', 'bykey'))),
+            # two rows, 3 operations, deletes, locked objects, explicit commits: sampled behaviours
+            dict(name='c20-2s-2o-3ops-sim', how='simulate', num=220, depth=14,
+                 cfg=dict(NS=2, NO=2, MaxOps=3, KB=('opt', 'nonopt'), OpSet=SCALAR + ('D', 'GFU', 'CM', 'QR'))),
         ]
     return [
-        # the quick bound with the full alphabet, every attribute kind: exhaustive + several thousand replays
-        dict(name='c20-2s-1o-3ops-kinds', how='graph', limit=5000,
+        # 3-operation programs over the full scalar alphabet, every attribute kind: exhaustive + several thousand replays
+        dict(name='c20-2s-1o-3ops-kinds', how='graph', limit=4500,
              cfg=dict(NS=2, NO=1, MaxOps=3, KB=('opt', 'nonopt', 'volatile'), OpSet=SCALAR)),
-        # every session mode, deletes, locked objects, rollback; -coverage: no action of the module is dead
+        # queries that filter on an attribute (read bit through _set_rbits) and explicit commit(), exhaustive, replayed
+        dict(name='c20-qr-commit', how='graph', limit=3000,
+             cfg=dict(NS=2, NO=1, MaxOps=3, KB=('opt', 'nonopt'), OpSet=('R', 'W', 'QR', 'CM'))),
+        dict(name='c20-commit-in-the-middle', how='graph', limit=2500,
+             cfg=dict(NS=2, NO=1, MaxOps=4, OpSet1=('GFU', 'CM', 'R', 'W'), OpSet=('W',), LockModes=('wait', 'bykey'))),
+        # every session mode, deletes, locked objects, rollback, commit(); -coverage: no action of the module is dead
         dict(name='c20-coverage', how='check', coverage=True,
-             cfg=dict(NS=2, NO=1, MaxOps=2, Modes=('opt', 'imm', 'ser'), OpSet=SCALAR + ('D', 'GFU', 'X'))),
-        # 3 sessions (FIFO of blocked acquirers), exhaustive
+             cfg=dict(NS=2, NO=1, MaxOps=2, Modes=('opt', 'imm', 'ser'), OpSet=SCALAR + ('D', 'GFU', 'X', 'CM'))),
+        # 3 sessions (queue of blocked acquirers), exhaustive
         dict(name='c20-3s-1o-2ops', how='check',
              cfg=dict(NS=3, NO=1, MaxOps=2, OpSet=('R', 'W', 'F'))),
-        dict(name='c20-2s-2o-2ops', how='graph', limit=3000,
+        dict(name='c20-2s-2o-2ops', how='graph', limit=2500,
              cfg=dict(NS=2, NO=2, MaxOps=2, OpSet=SCALAR + ('D',))),
         # 3 sessions, programs <= 4, two rows: the exhaustive search does not finish in the budget -> simulation
         dict(name='c20-3s-2o-4ops-sim', how='simulate', num=2500, depth=24,
-             cfg=dict(NS=3, NO=2, MaxOps=4, Modes=('opt', 'imm'), OpSet=SCALAR + ('D', 'GFU', 'X'))),
+             cfg=dict(NS=3, NO=2, MaxOps=4, Modes=('opt', 'imm'), OpSet=SCALAR + ('D', 'GFU', 'X', 'CM', 'QR'),
+                      LockModes=('wait', 'bykey'))),
         dict(name='c20-3s-kinds-sim', how='simulate', num=800, depth=24,
-             cfg=dict(NS=3, NO=2, MaxOps=4, KA=('nonopt', 'volatile'), OpSet=SCALAR + ('D',))),
+             cfg=dict(NS=3, NO=2, MaxOps=4, KA=('nonopt', 'volatile'), OpSet=SCALAR + ('D', 'CM', 'QR'))),
     ]
 
 
@@ -57,7 +66,7 @@ def run(ctx):
     so.run_plan(ctx, plan(ctx.tier))
     ctx.assumptions += [
         'SQLite provider only: PostgreSQL/MySQL/Oracle paths are not executed (no server in the sandbox)',
-        'one transaction per db_session (commit ends the session); explicit commit() followed by more work is not modelled',
+        'non-optimistic (serializable / optimistic=False) sessions are outside NoLostUpdate, as in the property: after an explicit commit() they keep their cache and send unguarded UPDATEs',
         'DELETE statements carry no optimistic criteria in pony (_save_deleted_); NoLostUpdate speaks of UPDATEs as the property does',
         'quick tier replays a class-covering subset of the state graph edges; thorough replays every edge of the 3-operation model',
     ]
